@@ -522,6 +522,10 @@ func (r *vpRunner) start(h vpOp) {
 			FallbackToReady: a[3] != 0, UnresponsiveDetectionMs: uint32(a[4]), UnresponsiveCalls: uint32(a[5]),
 			BindPickStrategy: strategy,
 		}}
+		if a[0] == 0 && a[1] == 0 && a[2] == 0 && a[3] == 0 && a[4] == 0 && a[5] == 0 && a[6] == 0 {
+			// an ApiConfig without a channel_pool message must behave like an all-zero one
+			api.ChannelPool = nil
+		}
 		for id := 1; id < len(vpMethods); id++ {
 			api.Method = append(api.Method, &pb.MethodConfig{
 				Name:     []string{vpMethodName(id)},
